@@ -188,6 +188,26 @@ def extract_many(units, config="compiler", workers=16, **kw):
         return {u: f.result() for u, f in futs.items()}
 
 
+def _map_one(args):
+    unit, config, fn_mod, fn_name, kw = args
+    import importlib
+    f = extract(unit, config, **kw)
+    worker = getattr(importlib.import_module(fn_mod), fn_name)
+    return unit, worker(f)
+
+
+def map_units(units, worker, config="compiler", workers=16, **kw):
+    """Extract every unit in a separate process and return {unit: worker(facts)}.
+    The worker must be a module-level function returning a picklable digest."""
+    build_tool()
+    jobs = [(u, config, worker.__module__, worker.__name__, kw) for u in units]
+    with concurrent.futures.ProcessPoolExecutor(max_workers=workers) as ex:
+        out = {}
+        for unit, res in ex.map(_map_one, jobs, chunksize=2):
+            out[unit] = res
+        return out
+
+
 class Facts:
     def __init__(self, raw, unit, config):
         self.raw = raw
@@ -520,7 +540,7 @@ class CFG:
             st.extend(self.succ[b])
         return seen
 
-    def path_avoiding(self, src, dst_pred, avoid_pred, src_idx=-1):
+    def path_avoiding(self, src, dst_pred, avoid_pred, src_idx=-1, edge_ok=None):
         """Is there a path from just after element src_idx of block src to an
         element satisfying dst_pred (or, if dst_pred is None, to the exit
         block) on which no element satisfies avoid_pred?  Returns a witness
@@ -549,9 +569,18 @@ class CFG:
                 return path
             if dst_pred is None and not self.succ[bid] and bid in self.noreturn_blocks:
                 continue   # path died in a noreturn call: not an exit
-            for s in self.succ[bid]:
+            for k, s in enumerate(self.succ[bid]):
+                if edge_ok is not None and not edge_ok(bid, s):
+                    continue
                 stack.append(((s, 0), path + [s]))
         return None
+
+    def cond_edges(self, bid):
+        """(cond node, true successor, false successor) of a two-way branch."""
+        b = self.blocks[bid]
+        if b.get("cond") is None or len(b["succs"]) != 2:
+            return None
+        return self.ids.get(b["cond"]), b["succs"][0], b["succs"][1]
 
     def return_blocks(self):
         out = []
